@@ -494,6 +494,10 @@ pub fn c05_cases(thorough: bool) -> Vec<C05Case> {
         mk("changed_coefficient_committed_constraint", zero.clone(), Dev::Coeff(0), false),
         mk("changed_constant_committed_constraint", zero.clone(), Dev::Const(0), false),
         mk("changed_constant_with_gates", base.clone(), Dev::Const(1), false),
+        // a constraint that mentions only the constant: its changed constant makes the statement unsatisfiable
+        mk("changed_constant_of_constant_only_constraint", Shape::new("const_only", &[Commit, AllocMul, Con, ConConst], &[]), Dev::Const(1), false),
+        mk("changed_constant_of_constant_only_constraint_zero_gates", Shape::new("const_only0", &[Commit, ConConst, ConCommitted], &[]), Dev::Const(0), false),
+        mk("changed_constant_of_constant_only_constraint_in_randomized_phase", Shape::new("const_only2", &[Commit, AllocMul], &[&[Chal, Con, ConConst]]), Dev::Const(1), false),
         // the deviating coefficient / constant is drawn only by the FIRST of two closures (the second one draws
         // nothing of that kind), so the deviation is addressed to that closure whatever else runs
         mk("changed_coefficient_first_of_two_randomized_gadgets", Shape::new("two_closures", &[Commit, Commit], &[&[Chal, ConCommitted], &[Chal, ConConst]]), Dev::Coeff(2), false),
